@@ -402,8 +402,17 @@ def run_request(body: bytes, content_type: str, *, mcl=None, maxmem=None, maxpar
 
     res = {"err": "", "fields": [], "files": []}
     try:
-        if entry == "request":
+        if entry in ("request", "cached-twice", "twice"):
             r = R(env)
+            if entry != "request":
+                # a history on one Request: the body cached with get_data() first ("cached-twice"), a first access
+                # whose outcome is dropped, then the access that is recorded -- what it answers must still obey the limits
+                try:
+                    if entry == "cached-twice":
+                        r.get_data()
+                    r.form, r.files
+                except RequestEntityTooLarge:
+                    pass
             form, files = r.form, r.files
         elif entry == "parse_form_data":
             from werkzeug.formparser import parse_form_data
